@@ -4,6 +4,7 @@ package main
 import (
 	"verif/dsim/harness"
 	"verif/dsim/plat"
+	"verif/dsim/props/c05"
 	"verif/dsim/props/c09"
 	"verif/dsim/props/c10"
 	"verif/dsim/props/c15"
@@ -16,6 +17,7 @@ import (
 
 func main() {
 	reg := map[string]harness.Harness{
+		"C05": c05.H{Child: harness.External{Property: "C05", ChildKey: "C11", Ver: "c05-child", M: plat.C11Meta(), Bin: "plat.test", TestName: "TestJob", Classify: plat.ClassifyExit}},
 		"C08": harness.Multi{Property: "C08", Parts: []harness.Harness{
 			harness.External{Property: "C08", Ver: "c08-plat-v1", M: plat.C08Meta(), Quick: 400, Thor: 20000, Bin: "plat.test", TestName: "TestJob", Classify: plat.ClassifyExit},
 			c09.H{Filters: true, Prop: "C08"},
